@@ -1,4 +1,4 @@
-HOOK_COMMITS = ["c106a14"]
+HOOK_COMMITS = ["c106a14", "2cc9483"]
 
 ENGINES = [
     dict(name="pbt", path="harness/pbt", serves_properties=["C%02d" % i for i in range(1, 21)],
